@@ -193,11 +193,13 @@ func (g *c15Guard) run(op string, f func() error) (err error) {
 	*g.yields = 0
 	var pan string
 	err, pan = callSafely(f)
+	hung := *g.yields > g.hangCap
+	*g.yields = 0 // the budget applies to guarded operations only
 	runtime.ReadMemStats(&m1)
 	alloc := int64(m1.TotalAlloc - m0.TotalAlloc)
 	bound := int64(allocSlack) + 64*g.input
 	switch {
-	case pan != "" && *g.yields > g.hangCap:
+	case pan != "" && hung:
 		g.failed = true
 		g.e.Violate("C15.no-hang", "%s, %s: %s did not finish within %d statements", g.what, g.damage, op, g.hangCap)
 	case pan != "":
@@ -335,7 +337,7 @@ func c15Stored(e *Env, c *C15Case, base []byte) {
 	if e.Failed() && c.Only == nil {
 		// make the replay file name the single damage that failed
 		for _, d := range list {
-			if e.Viol != nil && containsStr(e.Viol.Message, d.String()) {
+			if e.Viol != nil && containsStr(e.Viol.Message, d.String()+":") {
 				dd := d
 				c.Only = &dd
 				break
@@ -429,7 +431,7 @@ func c15Wire(e *Env, c *C15Case) {
 	}
 	if e.Failed() && c.Only == nil {
 		for _, dmg := range list {
-			if containsStr(e.Viol.Message, dmg.String()) {
+			if containsStr(e.Viol.Message, dmg.String()+")") {
 				dd := dmg
 				c.Only = &dd
 				break
